@@ -1,4 +1,5 @@
 import RreModel.C03.Lemmas
+import RreModel.C02.ApiLemmas
 /-
 C03 — property theorems (only). "execute always returns, within max_cycles, at a fixpoint or at the bound."
 `exec maxc t st` is total by construction: it is structural recursion on `max_cycles` (the code's own
@@ -92,6 +93,18 @@ theorem error_returns {maxc t : Nat} {st : St} (h : (exec maxc t st).ok = false)
   obtain ⟨s, r, a, b, c, d⟩ := cycles_fail h
   exact ⟨s, r, a, b, c, execActions_fail d⟩
 
+/-- **wrappers_within_bound.** The `execute` inside `execute_workflow_step` and every `execute` made by
+`execute_workflow` is `exec maxc now` from some engine state — so all the statements above apply to it — and in particular
+it makes at most `max_cycles` passes; `set_debug_mode` before it does not change which `exec` that is. -/
+theorem wrappers_within_bound (maxc now : Nat) (st : St) :
+    (∀ g, (wfStep maxc now st g).2 = exec maxc now (step maxc st (.focus g)).1 ∧ (wfStep maxc now st g).2.cycles ≤ maxc) ∧
+    (∀ gs, ∀ o ∈ (wfLoop maxc now st gs).2.1, (∃ s, o = exec maxc now s) ∧ o.cycles ≤ maxc) ∧
+    (∀ b, (callStep maxc now (callStep maxc now st (.setDebug b)).1 .execNow).2 = .res (.exec (exec maxc now st))) := by
+  refine ⟨fun g => ⟨wfStep_out _ _ _ _, ?_⟩, fun gs o ho => ?_, fun _ => rfl⟩
+  · rw [wfStep_out]; exact (cycle_count_le _ _ _).1
+  · obtain ⟨s, hs⟩ := wfLoop_outs maxc now st gs o ho
+    exact ⟨⟨s, hs⟩, by rw [hs]; exact (cycle_count_le _ _ _).1⟩
+
 /-! ## non-vacuity: a counter, a toggle and a ping-pong pair that never quiesce -/
 
 def mk (n : Nat) (c : Cond) (as : List Action) : Rule :=
@@ -111,5 +124,9 @@ example : summary (exec 3 10 (stOf counter)) = (3, 3, 3, true) := by decide +ker
 example : summary (exec 64 10 (stOf pingPong)) = (64, 128, 128, true) := by decide +kernel
 -- an action on a missing field is a returned error
 example : summary (exec 64 10 (stOf [mk 0 (.eq 0 0) [.add 7 1]])) = (1, 1, 0, false) := by decide +kernel
+
+-- a workflow over two groups on a never-quiescing rule of group 1: each step ends at the bound
+example : ((wfLoop 3 50 { init with rules := [{ mk 0 (.gt 0 (-1)) [.add 0 1] with agenda := some 1 }], facts := [(0, 0)] }
+    [1, 1, 0, 1]).2.1.map summary) = [(3, 3, 3, true), (3, 3, 3, true), (1, 0, 0, true)] := by decide +kernel
 
 end C03
